@@ -289,10 +289,13 @@ def encodeStr (enc : Nat) (s : Bytes) : Bytes := s.flatMap (encodeByte enc)
 def redirectLocation (pfx path query : Bytes) : Bytes :=
   pfx ++ encodeStr 0 path ++ [slash] ++ (if query.isEmpty then [] else qmark :: query)
 
-/-! ### reference side (RFC 9112 §6.3, written from the RFC, not from the C)
+/-! ### reference side (written from RFC 9112, not from the C)
 
-  What a client that follows the RFC takes the message body to be, given the status, whether the
-  request was HEAD, and the header fields it received. -/
+  What a client that follows the RFC takes the message to be.  Two levels: `rfcFraming` reads a
+  header *list*; `wireDecode` reads the *bytes on the wire* (header section up to the first empty
+  line, status line, `name ":" OWS value` fields — every one of them, so conflicting duplicates are
+  seen — then §6.3 and the body).  The chunked decoder `rfcDechunk` is written from §7.1 and is
+  independent of lighttpd's own request-side decoder model. -/
 
 inductive Framing where
   | none                  -- the message has no body (HEAD, 1xx, 204, 304)
@@ -304,27 +307,140 @@ deriving Repr, DecidableEq
 
 def decNat (v : Bytes) : Nat := v.foldl (fun a b => 10 * a + (b.toNat - 48)) 0
 
-def rfcFraming (isHead : Bool) (status : Nat) (hs : List Hdr) : Framing :=
-  if isHead || status / 100 = 1 || status = 204 || status = 304 then .none
-  else if Hdrs.has hs nTransferEncoding then
-    (if Hdrs.get hs nTransferEncoding = some (ofString "chunked") then .chunked else .invalid)
-  else
-    match Hdrs.get hs nContentLength with
-    | some v => if v.isEmpty then .close else if v.all isDigit then .length (decNat v) else .invalid
-    | none => .close
+def isOws (b : UInt8) : Bool := b = sp || b = ht
 
-/-- the reference chunked decoder: the request-side automaton without a size limit -/
-def refCfg : CkCfg := { maxSize := 0, maxField := 8192 }
+/-- leading optional whitespace of a field value is not part of the value -/
+def ltrim (v : Bytes) : Bytes := v.dropWhile isOws
+
+/-- §6.3 on the Content-Length / Transfer-Encoding values that were received (all of them) -/
+def framingOf (isHead : Bool) (status : Nat) (cls tes : List Bytes) : Framing :=
+  if isHead || status / 100 = 1 || status = 204 || status = 304 then .none
+  else if !tes.isEmpty then
+    (if tes = [ofString "chunked"] && cls.isEmpty then .chunked else .invalid)
+  else
+    match cls with
+    | [] => .close
+    | v :: rest =>
+      if rest.all (· == v) && !v.isEmpty && v.all isDigit then .length (decNat v) else .invalid
+
+/-- the non-blank value (OWS-trimmed) the store holds for a name, as a list of at most one -/
+def Hdrs.vals (hs : List Hdr) (k : Bytes) : List Bytes :=
+  match Hdrs.get hs k with
+  | some v => if v.isEmpty then [] else [ltrim v]
+  | none => []
+
+/-- §6.3 read off a header store (sound for stores without duplicate names: `Hdrs.NoDup`) -/
+def rfcFraming (isHead : Bool) (status : Nat) (hs : List Hdr) : Framing :=
+  framingOf isHead status (Hdrs.vals hs nContentLength) (Hdrs.vals hs nTransferEncoding)
+
+/-! §7.1 chunked decoder -/
+
+/-- hex number at the front: (value, number of digits, rest) -/
+def readHex : Bytes → Nat → Nat → Nat × Nat × Bytes
+  | [], v, k => (v, k, [])
+  | b :: rest, v, k =>
+    match hexVal b with
+    | some d => readHex rest (v * 16 + d.toNat) (k + 1)
+    | none => (v, k, b :: rest)
+
+/-- skip to just behind the next CRLF (chunk extensions, a trailer line) -/
+def skipLine : Bytes → Option Bytes
+  | [] => none
+  | [_] => none
+  | a :: b :: rest => if a = cr ∧ b = lf then some rest else skipLine (b :: rest)
+
+/-- trailer section: lines until an empty one -/
+def skipTrailers : Nat → Bytes → Option Bytes
+  | 0, _ => none
+  | fuel + 1, w =>
+    match w with
+    | a :: b :: rest => if a = cr ∧ b = lf then some rest else (skipLine w).bind (skipTrailers fuel)
+    | _ => none
+
+/-- chunked-body = *chunk last-chunk trailer-section CRLF: (decoded body, what follows) -/
+def rfcDechunk : Nat → Bytes → Bytes → Option (Bytes × Bytes)
+  | 0, _, _ => none
+  | fuel + 1, w, acc =>
+    match readHex w 0 0 with
+    | (n, k, r) =>
+      if k = 0 then none
+      else
+        match skipLine r with
+        | none => none
+        | some r1 =>
+          if n = 0 then (skipTrailers (r1.length + 1) r1).map fun rest => (acc, rest)
+          else if r1.length < n + 2 then none
+          else if (r1.drop n).take 2 ≠ [cr, lf] then none
+          else rfcDechunk fuel (r1.drop (n + 2)) (acc ++ r1.take n)
 
 /-- split what follows the header section into (message body, bytes that belong to what follows) -/
 def rfcBody : Framing → Bytes → Option (Bytes × Bytes)
   | .none, w => some ([], w)
   | .length n, w => if n ≤ w.length then some (w.take n, w.drop n) else none
-  | .chunked, w =>
-    let st := ckFeed refCfg {} w
-    if st.mode = .done && st.ka then some (st.out, w.drop (w.length - st.after)) else none
+  | .chunked, w => rfcDechunk (w.length + 1) w []
   | .close, w => some (w, [])
   | .invalid, _ => none
+
+/-! wire level -/
+
+/-- bytes up to the first LF (exclusive) and what follows it -/
+def takeLine : Bytes → Option (Bytes × Bytes)
+  | [] => none
+  | b :: rest =>
+    if b = lf then some ([], rest)
+    else
+      match takeLine rest with
+      | some (l, r) => some (b :: l, r)
+      | none => none
+
+/-- a line must end in CR (before the LF that `takeLine` removed) -/
+def stripCR (l : Bytes) : Option Bytes :=
+  if l.getLast? = some cr then some l.dropLast else none
+
+/-- the lines of the header section up to the first empty line, and everything behind it -/
+def splitHead : Nat → Bytes → Option (List Bytes × Bytes)
+  | 0, _ => none
+  | fuel + 1, w =>
+    match takeLine w with
+    | none => none
+    | some (l, r) =>
+      match stripCR l with
+      | none => none
+      | some l' =>
+        if l'.isEmpty then some ([], r)
+        else
+          match splitHead fuel r with
+          | some (ls, rest) => some (l' :: ls, rest)
+          | none => none
+
+/-- field-line = field-name ":" OWS field-value -/
+def parseField (l : Bytes) : Option (Bytes × Bytes) :=
+  let name := l.takeWhile (· ≠ colon)
+  match l.dropWhile (· ≠ colon) with
+  | [] => none
+  | _ :: v => if name.isEmpty then none else some (name, ltrim v)
+
+/-- status-line = "HTTP/1." DIGIT SP 3DIGIT SP …  -> status code -/
+def parseStatusLine (l : Bytes) : Option Nat :=
+  let code := (l.drop 9).take 3
+  if l.take 7 = ofString "HTTP/1." ∧ (l.drop 8).head? = some sp ∧ code.length = 3 ∧ code.all isDigit
+      ∧ (l.drop 12).head? = some sp
+  then some (decNat code) else none
+
+def fieldVals (fs : List (Bytes × Bytes)) (k : Bytes) : List Bytes :=
+  (fs.filter fun f => eqIcase f.1 k).map (·.2)
+
+/-- the whole client: (status, fields, body, bytes left for the next response) -/
+def wireDecode (isHead : Bool) (w : Bytes) : Option (Nat × List (Bytes × Bytes) × Bytes × Bytes) :=
+  match splitHead (w.length + 1) w with
+  | some (sl :: fl, after) =>
+    match parseStatusLine sl, fl.mapM parseField with
+    | some st, some fs =>
+      match rfcBody (framingOf isHead st (fieldVals fs nContentLength) (fieldVals fs nTransferEncoding)) after with
+      | some (body, rest) => some (st, fs, body, rest)
+      | none => none
+    | _, _ => none
+  | _ => none
 
 /-- the body the handler meant the client to get -/
 def intendedBody (d : RespIn) : Bytes :=
@@ -332,12 +448,41 @@ def intendedBody (d : RespIn) : Bytes :=
   else if 400 ≤ d.status && d.status < 600 && errdocApplies d then errorPage d.status
   else d.queued ++ (if d.finished then [] else d.pieces.flatten)
 
+/-! hypotheses of the property theorems -/
+
+def NoCRLF (b : Bytes) : Prop := cr ∉ b ∧ lf ∉ b
+
+/-- no stored name or value contains CR or LF (responses without repeated fields) -/
+def HdrsClean (hs : List Hdr) : Prop := ∀ h ∈ hs, NoCRLF h.key ∧ NoCRLF h.value
+
+/-- names are non-empty tokens without a colon -/
+def KeysOk (hs : List Hdr) : Prop := ∀ h ∈ hs, h.key ≠ [] ∧ colon ∉ h.key
+
+/-- the store holds at most one entry per field name (what array.c guarantees; every store
+    operation preserves it: `c04_store_names_unique`) -/
+def Hdrs.NoDup (hs : List Hdr) : Prop :=
+  hs.Pairwise fun a b => Hdrs.sameName a.key b.key = false
+
+/-- one entry per name, names are tokens: the store invariant that array.c maintains -/
+def StoreOk (hs : List Hdr) : Prop := Hdrs.NoDup hs ∧ KeysOk hs
+
+/-- a stored value: a CR/LF-free value, possibly followed by repeated-field continuations
+    "\r\nName: value" as http_header_response_insert() writes them -/
+inductive ValueOk (k : Bytes) : Bytes → Prop
+  | plain (v : Bytes) : NoCRLF v → ValueOk k v
+  | more (old k' v : Bytes) : ValueOk k old → Hdrs.sameName k' k = true → NoCRLF k' → k' ≠ [] → NoCRLF v →
+      ValueOk k (old ++ [cr, lf] ++ k' ++ [colon, sp] ++ v)
+
+def FieldsOk (hs : List Hdr) : Prop := ∀ h ∈ hs, NoCRLF h.key ∧ ValueOk h.key h.value
+
 /-- the domain of the framing property: what a well-behaved handler hands to the response path.
     (Backend responses that violate these are the subject of C10; protocol upgrades and CONNECT
     tunnels have no message body in the sense of RFC 9112 §6.3.) -/
 structure HandlerSane (d : RespIn) : Prop where
   /-- a final response (interim 1xx responses go through `send1xx`) -/
   status : 200 ≤ d.status
+  /-- one entry per field name -/
+  noDup : Hdrs.NoDup d.hdrs
   /-- the handler does not apply a transfer coding of its own -/
   noTE : Hdrs.has d.hdrs nTransferEncoding = false
   noUpgrade : Hdrs.has d.hdrs nUpgrade = false
@@ -347,6 +492,7 @@ structure HandlerSane (d : RespIn) : Prop where
       v.isEmpty = false → v = natToDec (d.queued ++ (if d.finished then [] else d.pieces.flatten)).length
   /-- a streamed body is ended with http_chunk_close() (aborted streams: C10) -/
   closes : d.closeNormally = true
+  /-- sizes the chunk-size renderer model is exact for (the C argument is a 64-bit integer) -/
   sizes : chunkSizeOk d.queued.length ∧ ∀ p ∈ d.pieces, chunkSizeOk p.length
 
 end LtVerif
